@@ -4,6 +4,11 @@ HERE = os.path.dirname(os.path.dirname(os.path.abspath(__file__)))
 BASE = json.load(open("/root/.vp/BASELINE.json"))["cmd"]
 
 CHECKS = {
+ "C13": dict(
+   technique="explicit-state BFS over the real bandit from every (policy, feature assignment, trained subset) initial state over {warm_start x 5 quantiles, partial_fit, fit, add_arm, remove_arm}; status-machine reference model in lock-step; per-transition rule oracle",
+   text="For each of eight policies, all 125 assignments of five feature vectors (zero and duplicates included) to three arms and all six proper trained subsets, every operation sequence up to the depth bound is executed; a three-valued status machine must predict cold_arms in every state and each warm_start is judged against the documented rule (only cold arms change, exact copy of a closest trained arm, within the quantile threshold, idempotent, monotone in the quantile).",
+   note="depth 2 (quick) / 3 on the 27 assignments over non-zero vectors (thorough); scipy cdist(cosine) and np.quantile trusted; per-arm learned state read from the implementor's documented fields",
+   ref="DESIGN.md section 7 (C13)"),
  "C14": dict(
    technique="bounded exhaustive enumeration of reward-row sequences x compositions x binarizers x neighbourhood policies x add_arm(binarizer) variants; differential oracle against a binarizer-free twin fed pre-converted rewards",
    text="Thompson Sampling alone and under each of Radius, KNearest, LSHNearest, Clusters (both k-means variants) and TreeBandit, with three binarizers that are not idempotent on {0,1}, is trained on every row sequence up to the bound through every composition, optionally installing a new binarizer by add_arm after the first call; outputs must equal those of a twin without binarizer trained on the converted rewards.",
